@@ -1,11 +1,13 @@
 package checks
 
 import (
+	"encoding/json"
 	"fmt"
 	"os"
 	"path/filepath"
 	"sort"
 	"strings"
+	"sync"
 
 	"verifharness/drv"
 	"verifharness/gen"
@@ -41,7 +43,8 @@ type refNode struct {
 }
 
 // refGlob walks the reference tree: all segments but the last select directories, the last selects regular files.
-// A link to a directory that the LAST segment matches goes to opt: it is not judged (see Assumptions).
+// A link to a directory that the LAST segment matches is a directory: never listed (opt stays empty; kept for
+// the callers' signature).
 func refGlob(root *refNode, segs []string, prefix string, opt map[string]bool) []string {
 	var out []string
 	if len(segs) == 1 {
@@ -51,8 +54,6 @@ func refGlob(root *refNode, segs []string, prefix string, opt map[string]bool) [
 			}
 			if !k.dir {
 				out = append(out, prefix+"/"+k.name)
-			} else if k.link {
-				opt[filepath.Clean(prefix+"/"+k.name)] = true
 			}
 		}
 		return out
@@ -135,6 +136,10 @@ func buildTree(r *gen.Rng, base string, depth int, node *refNode) {
 		}
 		node.kids = append(node.kids, &refNode{name: ln, dir: k.dir, link: true, kids: k.kids})
 	}
+	if r.Chance(1, 5) && !used["dangling.txt"] {
+		// leads nowhere: not a regular file, in no list (and in the harness's record of the tree not at all)
+		os.Symlink("no-such-target", filepath.Join(base, "dangling.txt"))
+	}
 }
 
 func randSeg(r *gen.Rng) string {
@@ -155,10 +160,10 @@ func C20(r *drv.Run) {
 		ntrees, npat = 400, 150
 		plen = 5
 	}
-	r.Rule = fmt.Sprintf("exhaustive: every pattern of length <= %d over {a,b,.,*} with at most 3 stars x a directory holding every name of length <= 4 over {a,b,.} (118 files) and 3 sub-directories with matching names; generated trees of depth <= 3 (names such as a.txt.txt, abxb, .a, and names containing ? [ ] + { } blank backslash, which only '*' may treat specially) with relative and absolute multi-segment patterns, the trees also holding symbolic links to sibling directories and files. Oracle: reference glob (segment-wise, backtracking '*') over the harness's own record of the tree; result sets compared after filepath.Clean; duplicates and listed directories are violations. Non-trivial = pattern containing '*' that selects a non-empty proper subset; distinct by (tree, pattern).", plen)
+	r.Rule = fmt.Sprintf("exhaustive: every pattern of length <= %d over {a,b,.,*} with at most 3 stars x a directory holding every name of length <= 4 over {a,b,.} (118 files) and 3 sub-directories with matching names; generated trees of depth <= 3 (names such as a.txt.txt, abxb, .a, and names containing ? [ ] + { } blank backslash, which only '*' may treat specially) with relative and absolute multi-segment patterns, the trees also holding symbolic links to sibling directories and files. The selection is also observed end to end: the built command line tool run inside some of the trees with `find top 1 any` (every file holds one byte), alone, with -profile naming a file OUTSIDE the tree that is called like a file inside it, and with -replace-mode plus a JSON output file; the set of file names in its JSON output must be the same set. Oracle: reference glob (segment-wise, backtracking '*') over the harness's own record of the tree; result sets compared after filepath.Clean; duplicates and listed directories are violations. Non-trivial = pattern containing '*' that selects a non-empty proper subset; distinct by (tree, pattern).", plen)
 	r.Assumptions = []string{
 		"excluded as the property says: directory segments made only of stars, '.' and '..' segments, empty segments",
-		"symbolic links in the trees point to an existing sibling (directory or regular file): a linked directory counts as a directory for every segment but the last, a linked regular file as a regular file; a link to a directory that the LAST segment matches is not judged (the code lists it and RunFiles then expands it like a directory argument); no dangling links, no special files",
+		"symbolic links in the trees point to an existing sibling (directory or regular file): a linked directory is a directory (traversed by directory segments, never listed as a file), a linked regular file is a regular file; dangling links (never to be listed) are present in some trees; no special files",
 	}
 	// flat exhaustive directory
 	flat := filepath.Join(r.WorkDir, "c20", "flat")
@@ -306,7 +311,107 @@ func C20(r *drv.Run) {
 		tc := tcs[fp.tc]
 		return &drv.Item{Case: wire.Case{Op: "glob", Pattern: fp.pat, Dir: tc.base}, Check: check(tc.tree, tc.base, fp.pat, tc.base, i%499 == 0)}
 	})
+	// the same selection observed end to end: the command line tool run inside the tree with the pattern, alone and
+	// next to flags that have nothing to do with file selection
+	{
+		r.BuildCLI()
+		ncli := 8
+		if !quick(r) {
+			ncli = 60
+		}
+		type job struct {
+			tc    tcase
+			pat   string
+			extra []string
+			label string
+		}
+		var jobs []job
+		for ti := 0; ti < len(tcs) && ti < ncli; ti++ {
+			tc := tcs[ti]
+			rng := gen.Derive(r.Seed, "C20cli", ti)
+			// a CPU profile written OUTSIDE the tree, named like a file inside it
+			profDir := filepath.Join(r.WorkDir, "c20", fmt.Sprintf("prof%d", ti))
+			os.MkdirAll(profDir, 0o755)
+			profName := "cpu.prof"
+			if files := refGlob(tc.tree, []string{"*"}, "", map[string]bool{}); len(files) > 0 {
+				profName = filepath.Base(files[rng.Intn(len(files))])
+			}
+			pats := append([]string{"*", "*b*", "a*/*"}, tc.pats[:min(len(tc.pats), 6)]...)
+			for _, p := range pats {
+				if strings.HasPrefix(p, "/") {
+					continue
+				}
+				jobs = append(jobs, job{tc, p, nil, "plain"},
+					job{tc, p, []string{"-profile", filepath.Join(profDir, profName)}, "with -profile"},
+					job{tc, p, []string{"-replace-mode", "NOTHING", "-formatted-json-file", filepath.Join(profDir, "out.json")}, "with -replace-mode and a JSON file"})
+			}
+		}
+		var wg sync.WaitGroup
+		sem := make(chan struct{}, 8)
+		for _, jb := range jobs {
+			wg.Add(1)
+			sem <- struct{}{}
+			go func(jb job) {
+				defer wg.Done()
+				defer func() { <-sem }()
+				args := append([]string{"-com", "find top 1 any", "-files", jb.pat, "-json"}, jb.extra...)
+				code, stdout, stderr := runCLI(r.CLIBin, jb.tc.base, args)
+				r.Eval(1)
+				opt := map[string]bool{}
+				want := refGlob(jb.tc.tree, strings.Split(jb.pat, "/"), jb.tc.base, opt)
+				wantC, _ := cleanSorted(want)
+				viol := func(sig string, d map[string]any) {
+					d["pattern"], d["flags"], d["args"] = jb.pat, jb.label, fmt.Sprint(args)
+					r.Violate(&drv.Violation{Sig: "cli:" + sig, Detail: d})
+				}
+				if code != 0 {
+					viol("exit-status", map[string]any{"exit": code, "stderr": oneLineN(stderr, 300)})
+					return
+				}
+				seen := map[string]bool{}
+				var got []string
+				if !strings.HasPrefix(strings.TrimSpace(stdout), "No files to search") && !strings.HasPrefix(strings.TrimSpace(stdout), "There were no matches") {
+					var doc []map[string]any
+					if err := json.Unmarshal([]byte(stdout), &doc); err != nil {
+						viol("stdout-is-not-json", map[string]any{"stdout": oneLineN(stdout, 300)})
+						return
+					}
+					for _, m := range doc {
+						f, _ := m["filename"].(string)
+						f = filepath.Clean(f)
+						under := false
+						for o := range opt {
+							if f == o || strings.HasPrefix(f, o+"/") {
+								under = true
+							}
+						}
+						if !under && !seen[f] {
+							seen[f] = true
+							got = append(got, f)
+						}
+					}
+				}
+				sort.Strings(got)
+				if strings.Join(got, "\n") != strings.Join(wantC, "\n") {
+					missing, extra := setDiff(wantC, got)
+					viol("searched-files-differ", map[string]any{"missing": fmt.Sprint(trimAll(missing, jb.tc.base)), "extra": fmt.Sprint(trimAll(extra, jb.tc.base))})
+					return
+				}
+				r.Count("cli_selections_verified", 1)
+				if len(jb.extra) > 0 && len(wantC) > 0 {
+					r.Count("cli_selections_verified_next_to_other_flags", 1)
+				}
+				if strings.Contains(jb.pat, "*") && len(wantC) > 0 {
+					r.Nontrivial("cli|" + jb.tc.base + "|" + jb.pat + "|" + jb.label)
+				}
+			}(jb)
+		}
+		wg.Wait()
+	}
 	if r.NViolations() == 0 {
+		if r.Counter("cli_selections_verified_next_to_other_flags") == 0 {
+			r.Inconclusive("coverage floor: cli_selections_verified_next_to_other_flags = 0")
+		}
 		for _, k := range []string{"wildcard_patterns_selecting_files", "multi_segment_patterns", "absolute_patterns", "wildcard_patterns_selecting_through_links"} {
 			if r.Counter(k) == 0 {
 				r.Inconclusive("coverage floor: " + k + " = 0")
